@@ -26,6 +26,13 @@
 //
 // The working directory is process-wide, so the two working-directory phases
 // run one after the other; all workers of a phase share one scratch layout.
+//
+// Parts three to seven (history.go, cwd.go, scope.go, chain.go, mutate.go) add
+// library state, the working directory, the position of the load call, chains
+// of loads and layout mutations.  Part eight (observe.go) observes what a load
+// READS, not only what it serves: outside objects under inotify watches and an
+// outside named pipe, in a private layout per worker ("no part of the outside
+// file is read").
 package c20
 
 import (
@@ -183,12 +190,15 @@ type seqSpace struct {
 	total  int64
 }
 
-func newSeqSpace(full, deep int) *seqSpace {
+func newSeqSpace(full, deep int) *seqSpace { return newSeqSpaceOver(full, deep, sigma, sigmaDeep) }
+
+// newSeqSpaceOver: every sequence of <= full components over alpha, and of full+1..deep components over alphaDeep.
+func newSeqSpaceOver(full, deep int, alpha, alphaDeep []string) *seqSpace {
 	sp := &seqSpace{}
 	for k := 1; k <= deep; k++ {
-		b := seqBlock{Len: k, Alpha: sigma}
+		b := seqBlock{Len: k, Alpha: alpha}
 		if k > full {
-			b.Alpha = sigmaDeep
+			b.Alpha = alphaDeep
 		}
 		b.n = 1
 		for j := 0; j < k; j++ {
@@ -435,6 +445,7 @@ type obs struct {
 	panicked string
 	noLoader bool     // the loading file itself could not be entered (chained context)
 	asked    []string // fs part: names asked of the file system
+	touched  []string // read-observation part: outside objects opened / read while the load ran ("open <id>", "read <id>")
 }
 
 type worker struct {
@@ -458,6 +469,10 @@ type worker struct {
 	cbase     map[string]string   // chain part: marks of the same chain driven by LoadFile / load-file only
 	sbase     map[string]string   // scope part: outcome of a single top-level load, per (configuration, file, primitive, target)
 	hstates   map[string]struct{} // history part: canonical states seen by this worker
+	watch     *readWatch          // read-observation part: inotify watches on the outside objects of this worker's private layout
+	fifo      string              // ... the outside named pipe of that layout and what the harness writes into it
+	fifoData  []byte
+	statOf    map[*node]os.FileInfo
 
 	// local counters, flushed at the end
 	outcomes map[outKey]int64
@@ -699,6 +714,9 @@ func (o *obs) text(entry int) string {
 	if len(o.asked) > 0 {
 		got += fmt.Sprintf(" asked=%q", o.asked)
 	}
+	if len(o.touched) > 0 {
+		got += fmt.Sprintf(" outside-objects-touched=%q", o.touched)
+	}
 	return got
 }
 
@@ -773,7 +791,7 @@ func (d *drv) violClass(part string, kind string, sb *sandbox, cwdReal string, r
 		return "fslib:" + rc.ID + ":" + kind + ":ctx=" + cx.ID
 	}
 	c := "rfl:" + kind + ":root=" + rc.ID + ":ctx=" + cx.ID
-	if kind == "outside-served" || kind == "outside-bytes-with-error" {
+	if kind == "outside-served" || kind == "outside-bytes-with-error" || kind == "outside-read" || kind == "outside-opened" {
 		// An escape is identified by the root spelling and the way out, not by
 		// the loading-file context (keeps the class count small: the core stops
 		// a run once 40 cases are recorded).
@@ -813,6 +831,9 @@ func runKase(sb *sandbox, cwd *node, k kase) (kind, class, expected, got string,
 	}
 	if k.Part == "mutation" {
 		return runMutationKase(k)
+	}
+	if k.Part == "observe" {
+		return "", "", "", "", fmt.Errorf("read-observation cases run in a private layout (replayObs)")
 	}
 	var ph *phaseCfg
 	phases := append(append([]phaseCfg(nil), rflPhases...), fsPhase)
@@ -1030,7 +1051,8 @@ func run(r *core.Run) {
 	r.Bound("layout_entries", len(theLayout))
 	r.Rule("every '/'-joined sequence of 1..N components (full alphabet up to N-1, the 15-component sub-alphabet at N) x spelling form x loading-file context x entry point x root spelling " +
 		"(chained context has no LoadSource entry). Non-trivial = (working directory, loading-file context, location string) whose model resolution " +
-		"(lexically cleaned or POSIX) reaches an existing regular file, inside or outside, or a symlink loop; distinct by that triple")
+		"(lexically cleaned or POSIX) reaches an existing regular file, inside or outside, or a symlink loop; distinct by that triple. " +
+		"Read-observation family: the same enumeration (alphabet extended by an outside named pipe, an outside directory and links to them) in a private layout per worker whose OUTSIDE objects are observed (inotify open/read events, a named-pipe rendezvous) x every confining library (RelativeFileSystemLibrary under 6 root spellings, NewRootedFSLibrary) x entry point x context: no load may open or read an outside object; non-trivial there = a reading of the location reaches an outside file, pipe or directory")
 	r.Assume("unspecified: which of two readings of a location applies when they differ - join+lexical clean then resolve links (the documented mechanism) or POSIX resolution of the joined string " +
 		"(e.g. dlnk_out/../in.lisp, in.lisp/.): a file named by either reading may be served if it is inside the root, an OUTSIDE file never")
 	r.Assume("unspecified: whether the directory of a loading file reached through a directory symlink is its spelled or its real directory; a file named from either may be served")
@@ -1047,7 +1069,7 @@ func run(r *core.Run) {
 	d.precheck(info)
 
 	// development aid: C20_PARTS=rfl,fs,history restricts the run (reported as capped)
-	parts := map[string]bool{"rfl": true, "fs": true, "history": true, "cwd": true, "scope": true, "chain": true, "mutation": true}
+	parts := map[string]bool{"rfl": true, "fs": true, "history": true, "cwd": true, "scope": true, "chain": true, "mutation": true, "observe": true}
 	if s := os.Getenv("C20_PARTS"); s != "" {
 		parts = map[string]bool{}
 		for _, p := range strings.Split(s, ",") {
@@ -1204,6 +1226,11 @@ func run(r *core.Run) {
 		d.runMutations(tot, info, &mu)
 	}
 
+	// ---- part eight: read observation (outside objects whose being opened / read is observable)
+	if parts["observe"] && !r.Expired() && !r.Saturated() {
+		d.runObserve(tot, info, &mu)
+	}
+
 	// outcome classes: counted locally (a shared counter per case would serialise
 	// the workers); each distinct class is registered once and the true counts
 	// are written to coverage.outcome_counts.
@@ -1280,6 +1307,9 @@ func replay(v core.Violation) (bool, string) {
 	k, err := core.CaseOf[kase](v)
 	if err != nil {
 		return false, err.Error()
+	}
+	if k.Part == "observe" {
+		return replayObs(k, v)
 	}
 	sb, err := newSandbox()
 	if err != nil {
